@@ -25,6 +25,7 @@ import (
 	"github.com/notaryproject/notation-go/zzverif/lib/hx"
 	"github.com/notaryproject/notation-go/zzverif/lib/mocks"
 	"github.com/notaryproject/notation-go/zzverif/lib/pki"
+	"github.com/notaryproject/notation-go/zzverif/lib/refsig"
 	"github.com/notaryproject/notation-go/zzverif/lib/tsa"
 	"github.com/notaryproject/notation-go/zzverif/lib/vt"
 	"github.com/opencontainers/go-digest"
@@ -53,13 +54,14 @@ var expiries = []struct {
 
 // countersignature states
 type tokenKind struct {
-	Name      string
-	Present   bool
-	Gen       time.Duration // genTime offset
-	Acc       int           // accuracy seconds
-	Wrong     bool          // imprint of another message
-	Authority int           // 0 trusted, 1 untrusted root, 2 EKU not critical, 3 code-signing leaf
-	Garbage   bool
+	Name        string
+	Present     bool
+	Gen         time.Duration // genTime offset
+	Acc         int           // accuracy seconds
+	Wrong       bool          // imprint of another message
+	Authority   int           // 0 trusted, 1 untrusted root, 2 EKU not critical, 3 code-signing leaf
+	Garbage     bool
+	CopyOfPrior bool
 }
 
 var tokens = []tokenKind{
@@ -74,6 +76,9 @@ var tokens = []tokenKind{
 	{Name: "token@-5d,tsa-leaf-eku-not-critical", Present: true, Gen: -5 * day, Acc: 1, Authority: 2},
 	{Name: "token@-5d,tsa-leaf-is-code-signing", Present: true, Gen: -5 * day, Acc: 1, Authority: 3},
 	{Name: "garbage-token", Present: true, Garbage: true},
+	// the byte-identical token of ANOTHER signature of the same signer (the fine signature used as the earlier
+	// verification in the instance-reuse cases): genuine, trusted, well timed - but over another signature value
+	{Name: "token@-5d,genuine-token-of-another-signature", Present: true, Gen: -5 * day, Acc: 1, Wrong: true, CopyOfPrior: true},
 }
 
 var tsaPolicies = []string{"tsa-not-listed", "tsa-listed-trusted-root", "tsa-listed-store-unloadable", "tsa-listed-other-root"}
@@ -141,6 +146,12 @@ func (w *world) envelope(c caseT) []byte {
 		sp.Timestamp = func(sig []byte) []byte {
 			if tk.Garbage {
 				return []byte{0x30, 0x03, 0x02, 0x01, 0x01}
+			}
+			if tk.CopyOfPrior {
+				prior := w.envelope(caseT{Scheme: c.Scheme, LeafW: c.LeafW, CAW: c.CAW, Token: 1, Format: c.Format})
+				if ref, err := refsig.Verify(forge.Formats[c.Format], prior); err == nil {
+					return w.auth[0].Token(tsa.Opts{Message: ref.SigValue, GenTime: w.now.Add(tk.Gen), AccuracySeconds: tk.Acc})
+				}
 			}
 			return w.auth[tk.Authority].Token(tsa.Opts{Message: sig, GenTime: w.now.Add(tk.Gen), AccuracySeconds: tk.Acc, WrongImprint: tk.Wrong})
 		}
